@@ -349,6 +349,17 @@ fn string_strategy() -> BoxedStrategy<Vec<u8>> {
         4 => proptest::collection::vec(proptest::sample::select(risky), 300..1400),
         3 => proptest::collection::vec(any::<u8>(), 4090..4110),
         2 => proptest::collection::vec(any::<u8>(), 8000..9000),
+        // long runs of printable bytes (1, 64, 511, 512, 513, 1024, 4096) separated by bytes that need escaping: staging
+        // buffers and flush boundaries inside a formatter
+        6 => proptest::collection::vec((proptest::sample::select(vec![0usize, 1, 64, 511, 512, 513, 1024, 4096]), proptest::sample::select(vec![0x0au8, 0x00, 0x22, 0x5c, 0xff, 0x7f, 0x09]), 0x21u8..0x7e), 1..5).prop_map(|segs| {
+            let mut v = Vec::new();
+            for (n, esc, fill) in segs {
+                v.push(esc);
+                let f = if fill == 0x22 || fill == 0x5c { 0x61 } else { fill };
+                v.extend(std::iter::repeat(f).take(n));
+            }
+            v
+        }),
         // valid UTF-8 with multi-byte characters (byte length != char count) for the str / String entry points
         10 => proptest::collection::vec(proptest::sample::select(vec!["a", "\u{e9}", "\u{20ac}", "\u{1f600}", "\"", "\\", "0", "\n"]), 0..40).prop_map(|v| v.concat().into_bytes()),
     ]
